@@ -2,9 +2,11 @@
    SerProofs.v (serializer), SerProofsDes.v (decoder), SerWitness.v (witnesses / examples).
    Model: SerModel.v, a byte-level transcription of qb_vsnprintf_serialize / qb_vsnprintf_deserialize(_n),
    my_strlcpy, strlcpy, strlcat of lib/log_format.c, lib/strlcpy.c, lib/strlcat.c.
-   [serialize true] / [deserialize true] = the code with fixes/C14-*.patch applied; [.. false] = the code as found. *)
+   [serialize true] / [deserialize true] = the code with fixes/C14-*.patch applied; [.. false] = the code as found.
+   Round trip: SerSpec.v (ser_data, wf_go), SerLists.v, SerRoundS.v, SerRoundD.v, SerRoundtrip.v. *)
 From Coq Require Import List ZArith Bool Lia.
 Require Import Verif.gen.Consts_logfmt Verif.SerModel Verif.SerProofs Verif.SerProofsDes Verif.SerWitness.
+Require Import Verif.SerSpec Verif.SerRoundtrip.
 Import ListNotations.
 Open Scope Z_scope.
 
@@ -102,3 +104,46 @@ Theorem C14_consts_size_t : SIZE_MOD = 18446744073709551616.
 Proof. exact SIZE_MOD_val. Qed.
 Theorem C14_consts_location : 2 ^ (8 * LF_SIZEOF_LOCATION) = 4294967296.
 Proof. exact location_is_32_bits. Qed.
+
+(* ---- the record is: format, NUL, then the argument values in order ----
+   for every covered format (wf_go, see SerSpec.v), ALL argument lists, every record size below 4 GiB in which the
+   record fits and every prior content of the buffer: the returned size is exactly strlen(fmt) + 1 + |ser_data| and the
+   record bytes are exactly  fmt ++ [0] ++ ser_data fmt args. *)
+Theorem C14_record_layout : forall max fmt args g,
+  1 <= max < 4294967296 -> zlen g = max -> wf_go fmt PLit args = true ->
+  zlen fmt + 1 + zlen (ser_data fmt PLit args) <= max ->
+  exists buf, serialize true max fmt args g = Done (zlen fmt + 1 + zlen (ser_data fmt PLit args)) buf 0 /\
+              zlen buf = max /\
+              takeZ (zlen fmt + 1 + zlen (ser_data fmt PLit args)) buf = fmt ++ [0] ++ ser_data fmt PLit args.
+Proof. exact serialize_exact. Qed.
+Print Assumptions C14_record_layout.
+
+(* ---- a stored message decodes to exactly what printf would have produced ----
+   for EVERY rendering oracle render1 (libc's output for one conversion; snprintf = render, cut to n-1 bytes, NUL),
+   every format covered by wf_go - literal text and directives made of flags # - + space ' I, width and precision as
+   digits or '*', length modifiers l ll z t j, conversions d i o u x X e E f F g G a A c s p %%, no NUL / QB_XC,
+   each directive rebuilt in at most MINI_FORMAT_STR_LEN - 1 characters -, ALL argument lists (a mismatching or
+   missing argument is read as the model's va_arg reads it; for matching ones this is C's behaviour), every record
+   size in which the record fits, every buf_len >= the record, every buffer size n that the text fits (< n), every
+   prior content of both buffers:  decoded text = printf_spec render1 fmt args.
+   "_partial": directives longer than 19 rebuilt characters (known finding C14-directive-longer-than-minifmt),
+   characters the scanners do not know inside a directive (h hh L q $ n m ...) and QB_XC in the format are outside
+   wf_go.  printf_spec gives a '*' the meaning "its decimal text": for a NEGATIVE precision that is not what printf
+   does (known finding C14-negative-star-precision); the monitor compares with the real vsnprintf. *)
+Theorem C14_roundtrip_partial : forall render1 max n blen fmt args g1 g2,
+  1 <= max < 4294967296 -> 1 <= n <= 4294967296 -> zlen g1 = max -> zlen g2 = n ->
+  wf_go fmt PLit args = true ->
+  zlen fmt + 1 + zlen (ser_data fmt PLit args) <= max ->
+  zlen fmt + 1 + zlen (ser_data fmt PLit args) <= blen ->
+  zlen (printf_spec render1 fmt PLit args) < n ->
+  out_text (deserialize true (snp_of render1) (out_record max (serialize true max fmt args g1)) blen n g2)
+  = printf_spec render1 fmt PLit args.
+Proof. exact roundtrip_thm. Qed.
+Print Assumptions C14_roundtrip_partial.
+
+(* the hypotheses are met by "%-+#0 '12.5lld|%zx|%ju|%ti %*d %.3s %s %c%% %p %.*f!" with twelve arguments
+   (long long extremes, '*' width and precision, a cut string, a NULL string, %c, %p, a double): a 125-byte record *)
+Example C14_roundtrip_covered_example :
+  wf_go demo_fmt PLit demo_args = true /\
+  zlen demo_fmt + 1 + zlen (ser_data demo_fmt PLit demo_args) = 125.
+Proof. exact demo_covered. Qed.
